@@ -102,3 +102,386 @@ def regen(ctx):
     ctx.cov['stages']['gen_ppif'] = {'file': 'ppci/lang/c/preprocessor.py', 'functions': hashes,
                                      'changed_on_disk': changed, 'ops': [r[0] for r in rows]}
     return rows
+
+
+# ------------------------------------------------------------------ driving the real preprocessor
+def run_if(expr_text):
+    """-> (exported parse tree or None, value outcome OkV/Diag/Internal, branch 'yes'/'no'/None, detail)"""
+    from ppci.lang.c.preprocessor import CPreProcessor
+    from ppci.lang.c.nodes import expressions as ex
+    from ppci.api import preprocess
+    from ppci.common import CompilerError
+    rec = {'depth': 0, 'tree': None, 'edepth': 0}
+    orig_parse, orig_eval = CPreProcessor.parse_expression, CPreProcessor._eval_tree
+
+    def parse(self, priority=0):
+        rec['depth'] += 1
+        try:
+            t = orig_parse(self, priority)
+        finally:
+            rec['depth'] -= 1
+        if rec['depth'] == 0:
+            rec['tree'] = t
+        return t
+
+    def evalt(self, expr):
+        rec['edepth'] += 1
+        try:
+            v = orig_eval(self, expr)
+        finally:
+            rec['edepth'] -= 1
+        if rec['edepth'] == 0:
+            rec['value'] = v
+        return v
+
+    def export(n):
+        if isinstance(n, ex.NumericLiteral):
+            return ('num', n.value)
+        if isinstance(n, ex.UnaryOperator):
+            return ('un', n.op, export(n.a))
+        if isinstance(n, ex.BinaryOperator):
+            return ('bin', export(n.a), n.op, export(n.b))
+        if isinstance(n, ex.TernaryOperator):
+            return ('tern', export(n.a), export(n.b), export(n.c))
+        raise KeyError(type(n).__name__)
+    CPreProcessor.parse_expression, CPreProcessor._eval_tree = parse, evalt
+    out = io.StringIO()
+    try:
+        preprocess(io.StringIO('#if %s\nyes\n#else\nno\n#endif\n' % expr_text), out)
+        outcome, detail = OkV(rec.get('value')), ''
+    except CompilerError as e:
+        outcome, detail = Diag, 'CompilerError: %s' % e.msg
+    except RecursionError:
+        outcome, detail = Internal, 'RecursionError'
+    except Exception as e:   # noqa: BLE001
+        outcome, detail = Internal, '%s: %s' % (type(e).__name__, str(e)[:80])
+    finally:
+        CPreProcessor.parse_expression, CPreProcessor._eval_tree = orig_parse, orig_eval
+    try:
+        tree = export(rec['tree']) if rec['tree'] is not None else None
+    except KeyError:
+        tree = None
+    toks = out.getvalue().split()
+    branch = 'yes' if 'yes' in toks else ('no' if 'no' in toks else None)
+    return tree, outcome, branch, detail
+
+
+PREC = {'*': 11, '/': 11, '%': 11, '+': 10, '-': 10, '<<': 9, '>>': 9, '<': 8, '>': 8, '<=': 8, '>=': 8,
+        '==': 7, '!=': 7, '&': 6, '^': 5, '|': 4, '&&': 3, '||': 2}
+
+
+def tokens(e, minimal, prio=0, right=False):
+    """token list of a pp expression; minimal = only the parentheses the C grammar needs"""
+    k = e[0]
+    if k == 'lit':
+        t = [('num', e[2], e[1] == 'ullong')] if e[2] >= 0 else ['-', ('num', -e[2], e[1] == 'ullong')]
+        return ['('] + t + [')'] if (e[2] < 0 and (not minimal or prio >= 12)) else t
+    if k == 'un':
+        t = [e[1]] + tokens(e[2], minimal, 12)
+        return t if (minimal and prio <= 12) else ['('] + t + [')']
+    if k == 'bin':
+        p = PREC[e[1]]
+        t = tokens(e[2], minimal, p, False) + [e[1]] + tokens(e[3], minimal, p, True)
+        need = (not minimal) or p < prio or (p == prio and right)
+        return ['('] + t + [')'] if need else t
+    t = tokens(e[1], minimal, 2) + ['?'] + tokens(e[2], minimal, 0) + [':'] + tokens(e[3], minimal, 1, False)
+    need = (not minimal) or prio > 1 or (prio == 1 and not right)
+    return ['('] + t + [')'] if need else t
+
+
+def text_of(toks):
+    return ' '.join(('%d%s' % (t[1], 'u' if t[2] else '')) if isinstance(t, tuple) else t for t in toks)
+
+
+def coq_toks(toks, model):
+    if model:
+        return '[%s]' % '; '.join('TNum %d' % t[1] if isinstance(t, tuple) else 'TSym "%s"%%string' % t for t in toks)
+    return '[%s]' % '; '.join('GNum %s %d' % ('true' if t[2] else 'false', t[1]) if isinstance(t, tuple)
+                              else 'GSym "%s"%%string' % t for t in toks)
+
+
+def desugar_pp(e):
+    """the tree a C parser builds for the rendered text: negative literals are unary minus"""
+    k = e[0]
+    if k == 'lit':
+        return e if e[2] >= 0 else ('un', '-', ('lit', e[1], -e[2]))
+    if k == 'un':
+        return ('un', e[1], desugar_pp(e[2]))
+    if k == 'bin':
+        return ('bin', e[1], desugar_pp(e[2]), desugar_pp(e[3]))
+    return ('cond',) + tuple(desugar_pp(x) for x in e[1:])
+
+
+def has_unsigned(e):
+    return (e[0] == 'lit' and e[1] == 'ullong') or any(has_unsigned(x) for x in e[1:] if isinstance(x, tuple))
+
+
+def gen_if_cases(ctx, n, depth):
+    rng = ctx.rng
+    out = []
+    for i in range(n):
+        types = ['llong'] if rng.random() < 0.7 else ['llong', 'ullong']
+        e = S.gen_expr(rng, S.DM_PP, rng.randint(1, depth), types=types, pp=True, small=rng.random() < 0.5)
+        # INTMAX_MIN has no literal: keep literals > INTMAX_MIN
+        out.append((e, rng.random() < 0.5))
+    return out
+
+
+def fix_min(e):
+    if e[0] == 'lit':
+        return ('lit', e[1], e[2] + 1) if e[2] == -(1 << 63) else e
+    return (e[0],) + tuple(fix_min(x) if isinstance(x, tuple) else x for x in e[1:])
+
+
+# ------------------------------------------------------------------ macro expansion: differential vs gcc -E -P
+TOK_RE = re.compile(r'"(?:[^"\\]|\\.)*"|\'(?:[^\'\\]|\\.)*\'|[A-Za-z_][A-Za-z_0-9]*|\d[\w.]*|<<=|>>=|\.\.\.|##|'
+                    r'<<|>>|<=|>=|==|!=|&&|\|\||->|\+\+|--|[-+*/%&|^~!<>=?:;,.(){}\[\]#]')
+
+
+def lex(text):
+    return TOK_RE.findall(text)
+
+
+def gen_macro_program(rng, safe=False):
+    """object-like and function-like macros with #, ##, nesting and self reference; then uses.
+    safe: no self reference / recursion, no # operator, ## only between identifiers (the region where ppci
+    agrees with gcc on the unchanged tree: every mismatch there is a violation)"""
+    names = ['A', 'B', 'C', 'F', 'G', 'H']
+    atoms = ['1', '2', 'x', 'y', 'q', '+', '-', '(', ')', 'p']
+    lines, defs = [], {}
+    for nm in names:
+        kind = rng.choice(['obj', 'fn1', 'fn2'])
+        prev = list(defs)
+        if kind == 'obj':
+            body = []
+            for _ in range(rng.randint(1, 4)):
+                r = rng.random()
+                if r < 0.35 and prev:
+                    p = rng.choice(prev)
+                    body.append(p if defs[p] == 0 else '%s(%s)' % (p, ', '.join(rng.choice(['1', 'z', '2 3'])
+                                                                                 for _ in range(defs[p]))))
+                elif r < 0.45 and not safe:
+                    body.append(nm)          # self reference: must not be re-expanded
+                else:
+                    body.append(rng.choice(['1', '2', 'x', 'q', '+', '-']))
+            lines.append('#define %s %s' % (nm, ' '.join(body)))
+            defs[nm] = 0
+        else:
+            params = ['a'] if kind == 'fn1' else ['a', 'b']
+            body = []
+            for _ in range(rng.randint(1, 4)):
+                r = rng.random()
+                if r < 0.3:
+                    body.append(rng.choice(params))
+                elif r < 0.42 and not safe:
+                    body.append('#' + rng.choice(params))
+                elif r < 0.54:
+                    body.append('k ## j' if safe else '%s ## %s' % (rng.choice(params + ['k']), rng.choice(params + ['7'])))
+                elif r < 0.7 and prev:
+                    p = rng.choice(prev)
+                    body.append(p if defs[p] == 0 else '%s(%s)' % (p, ', '.join(rng.choice(params) for _ in range(defs[p]))))
+                elif r < 0.78 and not safe:
+                    body.append('%s(%s)' % (nm, ', '.join(params)))   # recursion: stays unexpanded
+                else:
+                    body.append(rng.choice(['1', '+', 'x', '(', ')']) if r < 0.9 else 'w')
+            # keep parentheses balanced in the body
+            bt = ' '.join(body)
+            if bt.count('(') != bt.count(')'):
+                bt = bt.replace('( ', '').replace(' )', '').replace('(', '').replace(')', '') if False else \
+                    ' '.join(t for t in body if t not in ('(', ')'))
+            lines.append('#define %s(%s) %s' % (nm, ', '.join(params), bt or 'a'))
+            defs[nm] = len(params)
+    for _ in range(rng.randint(2, 5)):
+        p = rng.choice(names)
+        if defs[p] == 0:
+            lines.append('%s ;' % p)
+        else:
+            args = []
+            for _ in range(defs[p]):
+                q = rng.choice(names + ['1', 'x y', 'm', '(1, 2)'])
+                if q in defs and defs[q] > 0 and rng.random() < 0.6:
+                    q = '%s(%s)' % (q, ', '.join(rng.choice(['1', 'x', 'A' if defs.get('A') == 0 else '3'])
+                                                 for _ in range(defs[q])))
+                args.append(q)
+            lines.append('%s(%s) ;' % (p, ', '.join(args)))
+    return '\n'.join(lines) + '\n'
+
+
+def gcc_E(src):
+    p = subprocess.run(['gcc', '-E', '-P', '-x', 'c', '-std=c11', '-'], input=src, stdout=subprocess.PIPE,
+                       stderr=subprocess.PIPE, text=True, timeout=30)
+    return p.stdout if p.returncode == 0 else None
+
+
+def ppci_E(src):
+    from ppci.api import preprocess
+    from ppci.common import CompilerError
+    out = io.StringIO()
+    try:
+        preprocess(io.StringIO(src), out)
+    except CompilerError as e:
+        return None, 'CompilerError: %s' % e.msg
+    except RecursionError:
+        return None, 'RecursionError'
+    except Exception as e:   # noqa: BLE001
+        return None, '%s: %s' % (type(e).__name__, str(e)[:80])
+    return '\n'.join(l for l in out.getvalue().splitlines() if not l.startswith('# ')), ''
+
+
+def classify(p, g, detail):
+    def norm(toks):
+        return [re.sub(r'\s+', '', t) if t.startswith('"') else t for t in toks]
+    if p is None:
+        return 'paste' if 'glued' in detail else 'error'
+    if norm(lex(p)) == norm(lex(g)):
+        return 'stringify-spacing'
+    return 'rescan'
+
+
+def macro_differential(ctx, n):
+    """strict stream (safe programs: every mismatch is a violation) + full stream (known classes tolerated)"""
+    stats = {'programs': 0, 'agree': 0, 'gcc_rejects': 0, 'strict_programs': 0, 'strict_differ': 0, 'classes': {}}
+    for i in range(2 * n):
+        safe = i % 2 == 0
+        src = gen_macro_program(ctx.rng, safe)
+        g = gcc_E(src)
+        if g is None:
+            stats['gcc_rejects'] += 1
+            continue
+        stats['programs'] += 1
+        stats['strict_programs'] += int(safe)
+        ctx.cov['evaluations'] += 1
+        p, detail = ppci_E(src)
+        if p is not None and lex(p) == lex(g):
+            stats['agree'] += 1
+            continue
+        cls = classify(p, g, detail)
+        rec = {'fn': 'macro expansion vs gcc -E -P', 'args': [src], 'expected': ' '.join(lex(g)),
+               'actual': ' '.join(lex(p)) if p is not None else detail,
+               'how_to_replay': 'printf %r | gcc -E -P -x c - ; compare with ppci.api.preprocess' % src}
+        if safe:
+            stats['strict_differ'] += 1
+            rec['key'] = 'macro-strict'
+        else:
+            stats['classes'][cls] = stats['classes'].get(cls, 0) + 1
+            rec['class'] = cls
+            rec['key'] = 'macro-' + cls
+        ctx.violation(rec)
+    ctx.cov['stages']['macro_differential_vs_gcc'] = stats
+    return stats
+
+
+# ------------------------------------------------------------------ run
+KNOWN_UNSIGNED = [('-1 < 0u', 0), ('(2 - 3u) > 0', 1), ('(1 ? -1 : 0u) < 0', 0)]
+FIXED_WITNESSES = [('-7 / 2 == -3', 1), ('-7 % 2 == -1', 1), ('7 / -2 == -3', 1), ('7 % -2 == 1', 1)]
+
+
+def is_fixed_tree():
+    return 'def c_div' in open(os.path.join(REPO, 'ppci/lang/c/preprocessor.py')).read()
+
+
+def search(ctx, cases=None):
+    deep = (not ctx.quick()) or bool(ctx.failed_stages)
+    stats = {'agree': 0, 'undefined': 0, 'unsigned_deviation': 0, 'violations': 0}
+    for text, exp in FIXED_WITNESSES:
+        _, out, branch, detail = run_if(text)
+        ctx.cov['evaluations'] += 1
+        if branch != ('yes' if exp else 'no'):
+            stats['violations'] += 1
+            ctx.violation({'fn': '#if evaluation', 'args': ['#if ' + text], 'expected': 'yes' if exp else 'no',
+                           'actual': branch or detail,
+                           'how_to_replay': 'ppci.api.preprocess on "#if %s\\nyes\\n#else\\nno\\n#endif"' % text})
+    for text, exp in KNOWN_UNSIGNED:
+        _, out, branch, detail = run_if(text)
+        if branch != ('yes' if exp else 'no'):
+            ctx.violation({'fn': '#if unsigned arithmetic', 'class': 'unsigned', 'key': 'unsigned', 'args': ['#if ' + text],
+                           'expected': 'yes' if exp else 'no', 'actual': branch or detail})
+    if cases is None:
+        cases = gen_if_cases(ctx, 1500 if deep else 300, 5)
+    nontriv = set()
+    for e, minimal in cases:
+        e = fix_min(e)
+        d = desugar_pp(e)
+        v = S.ev(S.DM_PP, d)
+        if v is None:
+            stats['undefined'] += 1
+            continue
+        text = text_of(tokens(e, minimal))
+        _, out, branch, detail = run_if(text)
+        ctx.cov['evaluations'] += 1
+        if S.size(d) > 1:
+            nontriv.add(text)
+        ok = isinstance(out, OkV) and branch == ('yes' if v != 0 else 'no') and \
+            (out.v == v or (has_unsigned(d) and (out.v != 0) == (v != 0)))
+        if ok:
+            stats['agree'] += 1
+        elif has_unsigned(d):
+            stats['unsigned_deviation'] += 1
+            ctx.violation({'fn': '#if unsigned arithmetic', 'class': 'unsigned', 'key': 'unsigned', 'args': ['#if ' + text],
+                           'expected': v, 'actual': out.v if isinstance(out, OkV) else detail})
+        else:
+            stats['violations'] += 1
+            ctx.violation({'fn': '#if evaluation', 'args': ['#if ' + text], 'expected': v,
+                           'actual': out.v if isinstance(out, OkV) else detail,
+                           'how_to_replay': 'ppci.api.preprocess on "#if %s\\nyes\\n#else\\nno\\n#endif"' % text})
+    ctx.cov['distinct_nontrivial'] += len(nontriv)
+    ctx.cov['stages']['search_if'] = stats
+    macro_differential(ctx, 400 if deep else 60)
+    return cases
+
+
+def correspondence(ctx, cases):
+    """real parse tree / value vs Model.PPIf; C grammar parser vs the Python tree; Coq pp_eval vs Python oracle"""
+    cc, recs = [], []
+    for e, minimal in cases:
+        e = fix_min(e)
+        toks = tokens(e, minimal)
+        text = text_of(toks)
+        tree, out, branch, detail = run_if(text)
+        if tree is not None:
+            cc.append(('parse_line 200 %s' % coq_toks(toks, True), OkV(tree)))
+            recs.append(('parse', text))
+        if out is not Diag and tree is not None:
+            cc.append(('v <- parse_line 200 %s ;; eval_tree v' % coq_toks(toks, True), out))
+            recs.append(('eval', text))
+        d = desugar_pp(e)
+        cc.append(('match g_parse 200 %s with Some e => pp_eval e | None => Some 424242 end' % coq_toks(toks, False),
+                   S.ev(S.DM_PP, d)))
+        recs.append(('spec', text))
+    bad = ctx.run_cases('ppif', ['Spec.CIntSpec', 'Spec.CPPGrammar', 'Model.PPIf'], cc)
+    if bad:
+        for i in bad[:5]:
+            ctx.log('disagreement:', recs[i])
+        ctx.failed_stages.append(('correspondence', 'model / oracle disagreement on %d cases, first: %r' % (len(bad), recs[bad[0]])))
+
+
+def run(ctx):
+    fixed = is_fixed_tree()
+    ctx.cov['stages']['tree'] = 'fixed (fixes/C26-if-division.diff applied)' if fixed else 'UNFIXED'
+    regen(ctx)
+    ok, _ = ctx.build(['Proofs/C26_ppif.vo'])
+    if ok:
+        ctx.check_props('Props/C26.v')
+    deep = not ctx.quick()
+    cases = gen_if_cases(ctx, 1200 if deep else 250, 5)
+    if ctx.build(['Model/PPIf.vo', 'Spec/CPPGrammar.vo', 'Lib/Val.vo'])[0]:
+        correspondence(ctx, cases)
+    for e, m in cases[:: max(1, len(cases) // 6)]:
+        ctx.note_sample({'if': text_of(tokens(fix_min(e), m))})
+    search(ctx, cases if not deep else None)
+    ctx.cov['exhaustive'] = False
+
+
+MANIFEST = {
+    'text': 'partial: for the #if core of the C preprocessor, Coq theorems (bounded, vm_compute) that the precedence-climbing '
+            'parser driven by OP_MAP builds the C-grammar parse for every sequence of <= 3 of its 19 operators (plus unary '
+            'prefixes and parenthesised pairs) and that evaluation equals intmax_t arithmetic on all signed expressions of '
+            'depth <= 1 over 9 boundary values and a depth-2 family, with / and % truncating (fixes/C26-if-division.diff); '
+            'refuted theorems record floor division / Python modulo (fixed) and the missing unsigned arithmetic (known finding). '
+            'Macro expansion (hide sets, #, ##, rescanning) is NOT proved: it is validated by a differential test of generated '
+            'macro sets against gcc -E -P (search only).',
+    'note': 'trusted: Coq kernel; OP_MAP extractor + py2coq (regenerated per run); hand model of parse_expression/_eval_tree '
+            'cross-checked per run against the recorded real parse tree and value; gcc as conforming oracle for macros. '
+            'Not modelled: macro expansion, includes, pragmas, line splicing, `defined`, identifiers/character constants in #if. No axioms.',
+    'technique': 'bounded Coq proof over regenerated operator table + differential correspondence + gcc -E differential (validation)',
+}
